@@ -39,10 +39,12 @@ def gen(rng, tier, idx):
         nsteps = r.choice([3, 10, 40, 120, 300])
         shuffle_p = r.choice([0, 0, 30, 100])
         tie_p = r.choice([0, 10, 40])
+        # clocks seconds apart inside one sort window (differences that do not fit in 32 bits)
+        bigstep = r.choice([1000, 1000, 10 ** 9, 3 * 10 ** 9, 2 ** 32 + 5])
         for _ in range(nsteps):
             a = r.weighted([("user", 50), ("cs", 14 if mode == "emu" else 6), ("kev", 18 if mode == "raw" else 0),
                             ("drain", 14), ("emptydrain", 3), ("jumbo", 4 if mode == "raw" else 0)])
-            dt = 0 if r.chance(tie_p) else 1 + r.below(r.choice([3, 50, 1000]))
+            dt = 0 if r.chance(tie_p) else 1 + r.below(r.choice([3, 50, 1000, 1000, bigstep]))
             if a == "user":
                 t += dt
                 uid += 1
@@ -61,7 +63,7 @@ def gen(rng, tier, idx):
             elif a == "kev":
                 # kernel records something with a true time in the (recent) past or now
                 uid += 1
-                back = r.choice([0, 0, 1, 5, 100, 10 ** 6])
+                back = r.choice([0, 0, 1, 5, 100, 10 ** 6, 5 * 10 ** 9])
                 kt = max(0, t - r.below(back + 1))
                 if kbuf:
                     kt = max(kt, 0)
